@@ -176,8 +176,14 @@ func (dr *DatabaseRecovery) shouldRetry(err error) bool {
 func (dr *DatabaseRecovery) calculateDelay(attempt int) time.Duration {
 	delay := float64(dr.retryConfig.BaseDelay) * math.Pow(dr.retryConfig.BackoffFactor, float64(attempt-1))
 
-	if delay > float64(dr.retryConfig.MaxDelay) {
-		delay = float64(dr.retryConfig.MaxDelay)
+	// A zero base times an overflowing power is NaN, and a negative base or
+	// factor gives a negative product: neither is a wait.
+	if math.IsNaN(delay) || delay < 0 {
+		delay = 0
+	}
+
+	if maxDelay := float64(dr.retryConfig.MaxDelay); delay > maxDelay {
+		delay = math.Max(maxDelay, 0)
 	}
 
 	return time.Duration(delay)
